@@ -1427,6 +1427,25 @@ func (d *Ledger) actKV() {
 		d.record("exec", d.shardOfName(fa), c)
 		return
 	}
+	// a pure no-op: the account saves again exactly what it already stores (nothing changes, gas is still charged per byte)
+	if d.chance(25) {
+		ai := d.W.Info(a)
+		if acc := d.W.Shards[ai.Shard].Peek(ai.Bytes); acc != nil && ai.Kind == "user" {
+			var args [][]byte
+			for _, k := range acc.SortedKeys() {
+				if !bytes.HasPrefix([]byte(k), []byte("ELROND")) && len(args) < 6 {
+					args = append(args, []byte(k), append([]byte(nil), acc.Storage[k]...))
+				}
+			}
+			if len(args) > 0 {
+				c := d.call("SaveKeyValue", a, a, args...)
+				c.RAE = false
+				d.T.Stats["kv-noop"]++
+				d.record("exec", d.shardOfName(a), c)
+				return
+			}
+		}
+	}
 	keys := [][]byte{[]byte("k1"), []byte("key2"), []byte("ELROND"), []byte("ELRONDesdtF1"), []byte("ELRON"), []byte("elrondx"), []byte("ELRONDroleesdtN"), []byte("ELRONDnonceN"), {}, []byte("EL"), []byte("ELROND!")}
 	forged, _ := (&esdt.ESDigitalToken{Value: new(big.Int).Mul(big.NewInt(1000), d.Scale)}).Marshal()
 	forgedRoles, _ := (&esdt.ESDTRoles{Roles: [][]byte{[]byte("ESDTRoleLocalMint"), []byte("ESDTRoleNFTCreate")}}).Marshal()
